@@ -227,6 +227,45 @@ def _ascii_subject(F, f, subj, toks, depth):
         return whys[0]
     return None
 
+
+def resolve_arms(F, rep):
+    """parse_inner turns each resolved expression (`ResolvedInner::V`) into a node: the arm for V builds `node::Inner::V` and no
+    other combinator (an `assertr #cmr child` built as `AssertL(child, cmr)` exchanges the hidden side and the child)"""
+    fs = [f for f in F.fns.values() if f.name == "parse_inner" and f.path.startswith("simplicity::human_encoding::parse")]
+    if len(fs) != 1:
+        rep.anchor("C17.resolve", "human_encoding::parse::parse_inner")
+        return
+    n = 0
+    views = [F.inlined(fs[0], ("map", "zip"), depth=3)] + [F.inlined(c, (), depth=3) for c in F.closures_of(fs[0])]
+    for f in views:
+        for b, si in enum_switches(f, "ResolvedInner"):
+            for v, tgt in si[2].items():
+                if v not in vcc.VARIANTS and v not in ("AssertL", "AssertR"):
+                    continue
+                reg = f.dominated_by(tgt)
+                built = set()
+                for bb in reg:
+                    for st in f.blocks[bb]["s"]:
+                        if st[0] == "=" and st[2].get("k") == "agg" and st[2].get("agg") == "adt" and st[2].get("adt") == vcc.INNER:
+                            built.add(st[2]["variant"])
+                    for st in f.blocks[bb]["s"]:
+                        if st[0] == "=" and st[2].get("k") == "agg" and st[2].get("agg") == "closure":
+                            c = F.fns.get(st[2]["closure"])
+                            for cb in (c.blocks if c else []):
+                                for s2 in cb["s"]:
+                                    if s2[0] == "=" and s2[2].get("k") == "agg" and s2[2].get("adt") == vcc.INNER:
+                                        built.add(s2[2]["variant"])
+                if not built:
+                    continue
+                n += 1
+                key = "parse_inner: %s" % v
+                if built == {v}:
+                    rep.ok("C17.resolve", key, None)
+                else:
+                    rep.violation("C17.resolve", v, "the arm of parse_inner for a resolved `%s` builds node::Inner::%s: the reparsed program has another "
+                                  "combinator there (for the assertions: hidden side and child exchanged)" % (v.lower(), sorted(built)), f.where())
+    rep.floor("C17.resolve", n, 2)
+
 def comment_lines(F, rep):
     """the lexer skips from `--` to the end of the line: a comment the printer writes without a terminating newline swallows
     whatever is printed next (a definition line disappears from the reparsed program)"""
@@ -262,6 +301,8 @@ def run(ctx, rep):
     rep.rule("C17.types", "every token the type printer emits is accepted by the type parser")
     rep.rule("C17.names", "generated names lex as symbols, cannot clash with user names, and every referenced node is printed")
     rep.rule("C17.rec", "parser recursion is reviewed")
+    rep.rule("C17.resolve", "the node built from a resolved expression is the variant the expression names")
+    resolve_arms(F, rep)
     rep.rule("C17.comment", "every `--` comment the printer writes ends its line")
     comment_lines(F, rep)
     rep.rule("C17.entropy", "the parser's length guards on a fail literal admit the 512 bits the printer writes")
